@@ -5,11 +5,79 @@ operations.  A scenario (config + step list) is executed deterministically; the 
 it produces contains no wall-clock, address or PRNG-in-logging artefact."""
 import hashlib
 import json
+import math
+import os
 import random
+import sys
 
 from . import faults, loader, worlds
 from .seams import EntropySource, make_entropy
 from .model.spec import SpecNode, SpecError, parse_state_strict, FormatError
+
+
+class InjectedFault(MemoryError):
+    """an allocation failure (or any exception a deployment can meet) raised by the simulator at a
+    chosen line event INSIDE a library call: the call is aborted at an arbitrary instant"""
+
+
+class InjectedInterrupt(KeyboardInterrupt):
+    """the same, as a BaseException (signal / cancellation): `except Exception` does not stop it"""
+
+
+INTR_EXC = {"MemoryError": InjectedFault, "KeyboardInterrupt": InjectedInterrupt}
+
+
+def _lib_prefix(lib):
+    return os.path.join(os.path.realpath(lib.src), "spake2") + os.sep
+
+
+def _line_tracer(prefix, on_line):
+    """global trace function: line events of frames whose code lives in the library under test"""
+    def local(frame, ev, arg):
+        if ev == "line":
+            on_line()
+        return local
+
+    def glob(frame, ev, arg):
+        fn = frame.f_code.co_filename
+        if fn.startswith(prefix) and (os.sep + "test" + os.sep) not in fn:
+            return local
+        return None
+    return glob
+
+
+def count_lines_in_fork(prefix, fn, args):
+    """dry run of a library call in a forked child (the parent's state is untouched): number of
+    line events the call executes inside library frames.  Deterministic: the child is an exact
+    copy of the caller."""
+    r, wfd = os.pipe()
+    pid = os.fork()
+    if pid == 0:
+        try:
+            os.close(r)
+            cnt = [0]
+
+            def on_line():
+                cnt[0] += 1
+            sys.settrace(_line_tracer(prefix, on_line))
+            try:
+                fn(*args)
+            except BaseException:        # noqa
+                pass
+            sys.settrace(None)
+            os.write(wfd, str(cnt[0]).encode())
+        finally:
+            os._exit(0)
+    os.close(wfd)
+    data = b""
+    while True:
+        b = os.read(r, 64)
+        if not b:
+            break
+        data += b
+    os.close(r)
+    os.waitpid(pid, 0)
+    return int(data) if data else 0
 
 
 def dg(b):
@@ -79,6 +147,7 @@ class World:
         self.fresh_hosts = bool(config.get("fresh_hosts")) or self.optimize
         self.hosts = {} if self.fresh_hosts else {0: self.lib}
         self.reboots = 0
+        self.dead_hosts = []
         self.config = config
         self.psets = config["psets"]
         self.shadow = shadow
@@ -90,6 +159,7 @@ class World:
         self.probes = {}
         self.skipped = 0
         self.findings = []        # filled by oracles
+        self._intr, self._intr_skip, self._intr_info = None, 0, None
 
     def host_lib(self, h):
         if h not in self.hosts:
@@ -110,6 +180,10 @@ class World:
                     n.lost = True
                 down.append(n.idx)
         if self.fresh_hosts:
+            # the dead process's objects are kept alive (unreachable for the sessions): a restarted
+            # process shares no address with its predecessor, and which addresses the allocator
+            # would hand out again must not decide a run
+            self.dead_hosts.append(self.hosts.get(h))
             self.hosts[h] = loader.load_fresh(self.optimize)
         self.reboots += 1
         self.probe("host-reboot")
@@ -122,11 +196,47 @@ class World:
         e = node.entropy
         e.active = api
         b0 = e.total
+        intr = self._intr
+        if intr is not None:
+            if self._intr_skip > 0:
+                self._intr_skip -= 1
+                intr = None
+            else:
+                self._intr = None
+        if intr is not None:
+            # fault: the call is aborted at a chosen line event inside the library
+            prefix = _lib_prefix(self.lib)
+            if "frac" in intr:
+                total = count_lines_in_fork(prefix, fn, args)
+                k = max(1, min(total, int(math.ceil(float(intr["frac"]) * total)))) if total else 0
+            elif "tail" in intr:
+                total = count_lines_in_fork(prefix, fn, args)
+                k = max(1, total - int(intr["tail"])) if total else 0
+            else:
+                total, k = None, int(intr["k"])
+            exc_cls = INTR_EXC.get(intr.get("exc", "MemoryError"), InjectedFault)
+            cnt = [0]
+
+            info = {"k": k, "of": total, "api": api, "fired": False}
+
+            def on_line():
+                cnt[0] += 1
+                if cnt[0] == k:
+                    info["fired"] = True
+                    self.fired["interrupt:" + api] = self.fired.get("interrupt:" + api, 0) + 1
+                    raise exc_cls("injected at library line event %d" % k)
+            self._intr_info = info
+            if k > 0:
+                sys.settrace(_line_tracer(prefix, on_line))
         try:
             r = ("ret", fn(*args))
+        except (InjectedFault, InjectedInterrupt) as ex:
+            r = ("exc", "InjectedFault")
         except Exception as ex:              # noqa: every library failure is an outcome
             r = ("exc", type(ex).__name__)
         finally:
+            if intr is not None:
+                sys.settrace(None)
             e.active = None
         self.acct.append((node.idx, api, e.total - b0, trip.calls - t0))
         return r
@@ -145,7 +255,20 @@ class World:
     def apply(self, step):
         self.tick += 1
         op = step["op"]
-        return getattr(self, "op_" + op)(step)
+        intr = step.get("interrupt")
+        if intr is None:
+            return getattr(self, "op_" + op)(step)
+        self._intr, self._intr_skip, self._intr_info = intr, int(intr.get("skip", 0)), None
+        try:
+            ev = getattr(self, "op_" + op)(step)
+        finally:
+            self._intr = None
+        info = self._intr_info
+        if info is not None and ev is not None:
+            ev["intr"] = info
+            if info["fired"]:
+                ev["interrupted"] = True
+        return ev
 
     def op_boot(self, step):
         n = self.nodes[step["n"]]
@@ -214,7 +337,18 @@ class World:
             n.out = n.spec.start(x)
             n.calls.append(("start", "msg"))
             return self.log(step, "msg", dg(n.out))
+        nested = step.get("nested")
+        if nested:
+            # the entropy function is application code (a shared pool, a green-thread yield point):
+            # while this start() waits for its bytes, OTHER sessions of the process make their calls
+            def run_nested():
+                for s2 in nested:
+                    self.apply(s2)
+            n.entropy.hook = run_nested
         r = self._call(n, "start", n.inst.start)
+        n.entropy.hook = None
+        if nested:
+            self.fired["nested-calls-inside-entropy-read"] = self.fired.get("nested-calls-inside-entropy-read", 0) + 1
         if r[0] == "exc":
             n.calls.append(("start", "exc:" + r[1]))
             return self.log(step, "exc:" + r[1])
@@ -431,20 +565,36 @@ class World:
         if n.inst is None or n.impl != "real":
             self.skipped += 1
             return self.log(step, "skip")
-        if what in ("start", "start_fail"):
+        if what in ("start", "start_fail", "start_reentrant"):
             saved = n.entropy.mode
             if what == "start_fail":
                 n.entropy.mode = "fail"
+            inner = {}
+            if what == "start_reentrant":
+                # the entropy function is application code: while it runs (inside start()) it calls
+                # start() on the same instance again - a nested call in the instance's history
+                inst = n.inst
+
+                def reenter():
+                    try:
+                        inner["out"], inner["msg"] = "msg", inst.start()
+                    except Exception as ex:          # noqa
+                        inner["out"] = "exc:" + type(ex).__name__
+                n.entropy.hook = reenter
             r = self._call(n, "start", n.inst.start)
             n.entropy.mode = saved
+            n.entropy.hook = None
             if r[0] == "exc":
                 n.calls.append(("start", "exc:" + r[1]))
-                return self.log(step, "exc:" + r[1], what=what)
-            n.calls.append(("start", "msg"))
-            if n.out is None and isinstance(r[1], bytes):
-                n.out = r[1]
-            ev = self.log(step, "msg", dg(r[1]), what=what)
-            ev["msg"] = r[1]
+                ev = self.log(step, "exc:" + r[1], what=what)
+            else:
+                n.calls.append(("start", "msg"))
+                if n.out is None and isinstance(r[1], bytes):
+                    n.out = r[1]
+                ev = self.log(step, "msg", dg(r[1]), what=what)
+                ev["msg"] = r[1]
+            if inner:
+                ev["inner"] = inner["out"]
             return ev
         if what == "serialize":
             r = self._call(n, "serialize", n.inst.serialize)
@@ -593,7 +743,7 @@ def log_lines(world):
     out = []
     for ev in world.events:
         extra = {k: v for k, v in ev.items()
-                 if k not in ("i", "op", "n", "out", "d", "msg", "blob", "key", "wire", "back")}
+                 if k not in ("i", "op", "n", "out", "d", "msg", "blob", "key", "wire", "back", "inner_msg")}
         out.append("%3d %-9s n=%s -> %s [%s] %s" % (ev["i"], ev["op"], ev["n"], ev["out"], ev["d"],
                                                       json.dumps(extra, sort_keys=True) if extra else ""))
     return out
